@@ -64,8 +64,8 @@ static int vf_expired(void) {
 }
 
 /* ------------------------------------------------------------------ counters */
-#define VF_MAXSTAT 512
-static struct { char name[96]; unsigned long long v; } vf_stats[VF_MAXSTAT];
+#define VF_MAXSTAT 4096
+static struct { char name[200]; unsigned long long v; } vf_stats[VF_MAXSTAT];
 static int vf_nstats = 0;
 static unsigned long long *vf_stat_slot(const char *name) {
 	for (int i = 0; i < vf_nstats; i++)
@@ -77,7 +77,7 @@ static unsigned long long *vf_stat_slot(const char *name) {
 }
 static void vf_stat_add(const char *name, unsigned long long d) { *vf_stat_slot(name) += d; }
 static void vf_statf_add(unsigned long long d, const char *fmt, ...) {
-	char b[96]; va_list ap; va_start(ap, fmt); vsnprintf(b, sizeof b, fmt, ap); va_end(ap);
+	char b[200]; va_list ap; va_start(ap, fmt); vsnprintf(b, sizeof b, fmt, ap); va_end(ap);
 	vf_stat_add(b, d);
 }
 
@@ -160,11 +160,14 @@ static void vf_fail(const char *kf, const char *fmt, ...) {
 	va_start(ap, fmt); vsnprintf(msg, sizeof msg, fmt, ap); va_end(ap);
 	vf_case *c = vf_cur;
 	vf_cur_failed = 1;
-	vf_statf_add(1, "viol.%s.%s", c ? c->op : "?", kf ? kf : "-");
-	unsigned long long *pr = vf_stat_slot(kf ? kf : "-unknown-printed");
-	/* print at most VF_PRINT_CAP examples per class (known) or per op (unknown) */
-	char key[128]; snprintf(key, sizeof key, "printed.%s.%s", c ? c->op : "?", kf ? kf : "-");
-	pr = vf_stat_slot(key);
+	/* failure class = (op, known-finding id, sub-operation); the sub-operation is the message up to its first
+	 * ':' '[' '(' or space, i.e. the routine name the harness puts in front of every message */
+	char sub[64]; size_t sl = 0;
+	while (msg[sl] && sl + 1 < sizeof sub && msg[sl] != ':' && msg[sl] != '[' && msg[sl] != '(' && msg[sl] != ' ') { sub[sl] = msg[sl]; sl++; }
+	sub[sl] = 0;
+	vf_statf_add(1, "viol.%s.%s.%s", c ? c->op : "?", kf ? kf : "-", sub);
+	char key[200]; snprintf(key, sizeof key, "printed.%s.%s.%s", c ? c->op : "?", kf ? kf : "-", sub);
+	unsigned long long *pr = vf_stat_slot(key);
 	if (*pr >= VF_PRINT_CAP && !vf_replaying) return;
 	(*pr)++;
 	if (c) {
